@@ -118,7 +118,18 @@ func drawFault(tp *tape.Tape, fresh func() string) fault {
 	if tp.Draw(8) == 0 {
 		d = 100 + tp.Draw(400) // a failure hundreds of calls deep
 	}
-	switch tp.Draw(14) {
+	switch tp.Draw(15) {
+	case 14: // three failures on consecutive lines, each tens of thousands of calls deep: whatever a failure leaves behind per abandoned call must not add up against later statements
+		if tp.Draw(12) == 0 {
+			fn := []string{"bomb(%d, 0)", "btyp(%d, \"s\")", "bidx(%d, [1, 2, 3])"}[tp.Draw(3)]
+			var three []string
+			for i := 0; i < 3; i++ {
+				three = append(three, y+" = "+fmt.Sprintf(fn, 23000+tp.Draw(20000)))
+			}
+			return fault{a: strings.Join(three, "\n"), tag: "F1.three_failures_tens_of_thousands_of_calls_deep", depth: true}
+		}
+		a, b := wrap(fmt.Sprintf("bomb(%d, 0)", d))
+		return mk(a, b, "F1.zero_div.depth", true)
 	case 13: // a failure at the bottom of n generators nested in one another (n iterator contexts alive when it happens)
 		n := 2 + tp.Draw(6)
 		if d >= 100 {
